@@ -12,7 +12,6 @@ timer deviation) of total cost <= the bound stated per configuration; the
 oracle compares against plain-list reference bookkeeping.  DESIGN.md section
 5, C16.
 """
-import itertools
 import pickle
 import random
 
@@ -678,7 +677,8 @@ def passes(cfg, tier):
         cfg.get('orig') == 'p0' and cfg['kind'] != 'simple'
     out = []
     if tier == 'thorough':
-        out.append(('D', 3 if nvt <= 3 or (nvt == 4 and items <= 2) else 2))
+        out.append(('D', 3 if nvt <= 3 or (nvt == 4 and items <= 2 and
+                                           cfg['kind'] != 'joinable') else 2))
         if cfg['kind'] == 'simple' and nvt <= 4:
             out.append(('P', 3 if nvt <= 3 else 2))
         elif nvt <= 3:
@@ -769,7 +769,7 @@ def main(tier, seed, only=None):
         for d in per_cfg[i]:
             st.merge(d)
             for ch, msg in d['violations']:
-                if not seen:
+                if not seen and len(rep.violations) < 10:
                     rep.violation('%s\nconfig=%r bound=%d' % (msg, cfg, bound),
                                   dict(harness='c16', config=cfg, choices=ch))
                 seen = True
